@@ -34,7 +34,8 @@ SCOPES = {
     ),
     "thorough": dict(
         states=dict(NA=2, G=2, Prio=[1, 2], XG=2),
-        states_limit=None,
+        states_limit=400000,  # TLC checks all ~2.2 M states; a seeded sample is replayed into the code
+        states3_limit=150000,
         states3=dict(NA=3, G=1, Prio=[1, 2, 3], XG=1),
         stateseq=dict(NA=3, G=1, Prio=[1, 1, 2], XG=1),
         stateseq_limit=None,
@@ -359,7 +360,7 @@ def run(prop: str, tier: str) -> int:
         _stage(rep, prop, "states1", sc["states1"], work, "states", sc.get("states1_limit"))
     _stage(rep, prop, "states", sc["states"], work, "states", sc["states_limit"])
     if "states3" in sc:
-        _stage(rep, prop, "states3", sc["states3"], work, "states", None)
+        _stage(rep, prop, "states3", sc["states3"], work, "states", sc.get("states3_limit"))
     if prop == "C03" and "stateseq" in sc:
         # equal priorities: the code orders by (priority, source_id); C04's "higher priority" clauses do not apply
         _stage(rep, prop, "stateseq", sc["stateseq"], work, "states", sc["stateseq_limit"], inv=MC_INV["C03"])
